@@ -205,8 +205,9 @@ uint64_t vh_violations(void) { return nviol; }
 
 /* A case's own budget is CPU time of the process (ITIMER_PROF -> SIGPROF): a library that loops burns CPU, a machine that is busy with other
  * work does not count against the case. A generous wall-clock alarm stays as a backstop (its firing alone is not a verdict, see the driver). */
-static int cpu_timer_armed;
+static int cpu_timer_armed; static long case_budget = 150; /* seconds of CPU time per case; the driver lowers it (VERIF_CASE_BUDGET) once the tree under test has been seen to hang */
 void vh_watchdog(unsigned seconds) {
+    if (seconds && (long) seconds > case_budget && case_budget < 30) seconds = (unsigned) case_budget; /* lowered by the driver: applies to self-armed budgets too */
     struct itimerval it; memset(&it, 0, sizeof it); it.it_value.tv_sec = (time_t) seconds;
     setitimer(ITIMER_PROF, &it, NULL); cpu_timer_armed = seconds != 0;
     alarm(seconds ? seconds * 20u + 120u : 0);
@@ -301,6 +302,10 @@ int vh_main(int argc, char ** argv, const char * property, const vh_phase_t * ph
 
     memset(&sa, 0, sizeof sa);
     sa.sa_handler = crash_handler;
+    /* default CPU budget of a case: the longest case of any check's quick tier takes under one second of CPU time (measured with
+     * VERIF_MEASURE_CASES; the checks with longer cases - C10, C11/C12 breadth-first slices, uptime phases - arm their own budget) */
+    case_budget = vh_args.thorough ? 150 : 30;
+    { const char * b = getenv("VERIF_CASE_BUDGET"); if (b && atol(b) >= 5 && atol(b) < case_budget) case_budget = atol(b); }
     sigemptyset(&sa.sa_mask);
     sigaction(SIGABRT, &sa, NULL);
     sigaction(SIGALRM, &sa, NULL);
@@ -312,6 +317,7 @@ int vh_main(int argc, char ** argv, const char * property, const vh_phase_t * ph
     sigaction(SIGILL, &sa, NULL);
 #endif
 
+    { int measure = getenv("VERIF_MEASURE_CASES") != NULL; double max_ms = 0; int max_p = 0; uint64_t max_idx = 0;
     for (p = 0; p < nphases; p++) {
         uint64_t n = phases[p].count(vh_args.thorough), idx, k = 0; time_t last_arm = 0;
         if (vh_args.replay && p != vh_args.replay_phase) continue;
@@ -324,12 +330,19 @@ int vh_main(int argc, char ** argv, const char * property, const vh_phase_t * ph
             cur_idx = idx; vh_sub = 0; case_desc[0] = 0;
             /* watchdog: "no case finishes within 150 s of CPU time" (wall-clock backstop 15 minutes); re-armed at most once per second (coarse vDSO clock, no syscall per case) */
             if (cpu_timer_armed) { cpu_timer_armed = 0; last_arm = 0; }
-            { struct timespec now; clock_gettime(CLOCK_MONOTONIC_COARSE, &now); if (k++ == 0 || now.tv_sec != last_arm) { struct itimerval it; memset(&it, 0, sizeof it); it.it_value.tv_sec = 150; setitimer(ITIMER_PROF, &it, NULL); alarm(900); last_arm = now.tv_sec; } }
+            { struct timespec now; clock_gettime(CLOCK_MONOTONIC_COARSE, &now); if (k++ == 0 || now.tv_sec != last_arm) { struct itimerval it; memset(&it, 0, sizeof it); it.it_value.tv_sec = case_budget; setitimer(ITIMER_PROF, &it, NULL); alarm(900); last_arm = now.tv_sec; } }
             vh_rng_seed(&rng, vh_args.seed, (uint64_t) p, idx);
+            if (measure) {
+                struct timespec a, b; double ms;
+                clock_gettime(CLOCK_PROCESS_CPUTIME_ID, &a); phases[p].run(idx, &rng); clock_gettime(CLOCK_PROCESS_CPUTIME_ID, &b);
+                ms = (double) (b.tv_sec - a.tv_sec) * 1e3 + (double) (b.tv_nsec - a.tv_nsec) / 1e6;
+                if (ms > max_ms) { max_ms = ms; max_p = p; max_idx = idx; }
+            } else
             phases[p].run(idx, &rng);
             if (vh_args.replay) break;
         }
     }
+    if (measure) { FILE * mf = fopen(getenv("VERIF_MEASURE_CASES"), "a"); if (mf) { fprintf(mf, "MAXCASE %s %s %s phase=%s idx=%llu cpu_ms=%.1f\n", property, vh_args.config ? vh_args.config : "-", vh_args.thorough ? "thorough" : "quick", phases[max_p].name, (unsigned long long) max_idx, max_ms); fclose(mf); } } }
     alarm(0); vh_watchdog(0);
     write_hashes();
     dump_results(out_fd, 1);
